@@ -23,7 +23,7 @@ from btclib.curves import secp256k1
 from btclib.exceptions import BTClibValueError
 from btclib.hashes import hash160
 
-from . import common, shared
+from . import c07_bip85, common, shared
 from .common import hx, unhx
 
 PROP = "C07"
@@ -35,9 +35,9 @@ RULE = ("op lines from one seeded PRNG: seeds 16..64 bytes (+ out-of-range), eve
         "non-trivial when the implementation answered (did not refuse); distinct = distinct (stream, op line)")
 TRUSTED = [
     "HMAC-SHA512 / SHA-256 / RIPEMD-160 of the model are validated against hashlib each run, not verified",
-    "SecpCofactorOne (every point of y^2 = x^3 + 7 over the secp256k1 field is killed by n: #E(F_p) = n) is ASSUMED, "
-    "not proved: the one named hypothesis of the `*_cofactor_one` theorems that carry T1/T2/T3 to the executed Btc.EC.ops "
-    "secp256k1 (C01 proves Lawful for `opsSub`, primality of p and n and the non-zero discriminant are proved)",
+    "no curve-level assumption is left for secp256k1: cofactor one (Btc.E2E.secpCofactorOne), primality of p and n, the "
+    "non-zero discriminant and Lawful (opsSub secpOk) (C01) are all PROVED; the `*_secp256k1` theorems carry T1/T2/T3 to the "
+    "executed Btc.EC.ops secp256k1 with no hypothesis on the curve (the generic `*_ec_cofactor_one` forms keep `hcof`)",
     "hand-written BIP32 / der_path models (Model/C07) are tied by correspondence only",
     "the invalid-child branches (IL >= n, zero child, infinity) are reached with a stubbed hmac.new on both sides",
 ]
@@ -243,6 +243,8 @@ def impl(line: str) -> str:
             return "ok " + " | ".join(xtok(k) for k in ks)
         except Exception as e:  # noqa: BLE001
             return "err " + kind(e)
+    if op in ("bip85.app", "shake256"):
+        return c07_bip85.impl(line, xof, xtok, kind)
     if op == "bip85.entropy":
         return _b(lambda: bip85.entropy_from_der_path(xof(t[1:7]), pof(t[7])))
     if op == "ver.pub":
@@ -782,6 +784,8 @@ ORACLES = {
     "law.split": _o_split, "law.neuter": _o_neuter, "law.crack": _o_crack,
     "refuse.hardened-pub": _o_hardened_pub, "refuse.depth": _o_depth, "refuse.invalid-child": _o_invalid_child,
     "vectors.bip32": _o_vectors, "path.roundtrip": _o_path_roundtrip, "version.pairing": _o_version_pairing,
+    "bip85.apps.reference": lambda w: c07_bip85.oracle_apps(w, xof, backend),
+    "bip85.apps.vectors": lambda w: c07_bip85.oracle_vectors(w, xof, backend),
     "bip85.formula": _o_bip85, "bip44.formula": _o_bip44, "account.range": _o_account, "slip132.version": _o_slip132,
 }
 
@@ -1147,7 +1151,31 @@ def run(ctx):
             lines.append(f"bip85.entropy {xtok(x)} {ptok(p)}")
         _both(ctx, "bip85.leading-zero", lines)
 
-    for fn in (s01_version_pairing, s02_official_vectors, s03_master_key, s04_derive_public, s05_invalid_child, s06_neuter_fingerprint, s07_crack, s08_account_level, s09_the_laws, s10_path_spellings, s11_thin_layers,
+    def s14_bip85_applications():  # BIP85 applications: model stream (Lean SHAKE256 validated first) + reference oracle
+        ctx.stream("bip85.shake256", c07_bip85.shake_lines(rng, ctx.n(20, 200)))
+        for serving in (False, True):
+            ctx.check("bip85.apps.vectors", {"serving": serving})
+        good = [k for k in prv if k.depth < 200]
+        keys = good * 6 + [k for k in pub if k.depth < 200][:3] + [malform(rng, rng.choice(good)) for _ in range(3)]
+        lines = []
+        vroot = BIP32KeyData.b58decode(json.load(open(c07_bip85.VECTORS))["master_bip32_root_key"])
+        for app, a in [("rolls", [10, 6, 0]), ("hex", [64, 0]), ("pwd64", [21, 0]), ("pwd85", [12, 0]), ("wif", [0]), ("xprv", [0]),
+                       ("bip39", [12, 0, 0]), ("bip39", [18, 0, 0]), ("bip39", [24, 0, 0]), ("rsa", [4096, 0, None, 80])]:
+            lines.append(c07_bip85.line_of(vroot, app, a, xtok))
+        # every dice width at least once per run, on the vector root
+        for sides in c07_bip85.SIDES:
+            lines.append(c07_bip85.line_of(vroot, "rolls", [12, sides, 1], xtok))
+            for serving in (False, True):
+                ctx.check("bip85.apps.reference", {"x": xtok(vroot), "app": "rolls", "args": [12, sides, 1], "serving": serving},
+                          nontrivial=sides < H)
+        for x, app, a in c07_bip85.gen_cases(rng, keys, ctx.n(160, 2500)):
+            lines.append(c07_bip85.line_of(x, app, a, xtok))
+            if _is_valid(x):
+                ctx.check("bip85.apps.reference", {"x": xtok(x), "app": app, "args": a, "serving": rng.random() < 0.5})
+        lines += c07_bip85.forced_lines(rng, good, ctx.n(40, 400), xtok, N)
+        _both(ctx, "bip85.apps", lines)
+
+    for fn in (s14_bip85_applications, s01_version_pairing, s02_official_vectors, s03_master_key, s04_derive_public, s05_invalid_child, s06_neuter_fingerprint, s07_crack, s08_account_level, s09_the_laws, s10_path_spellings, s11_thin_layers,
                s12_hardened_boundary, s13_bip85_leading_zero):
         _guard(ctx, fn)
 
